@@ -16,5 +16,5 @@ CONSTANTS
   Nauth1 = 48
   Nauth2 = 256
   Nauth5 = 64
-  Enforce = {"quiet", "verify-exact", "honest-token-accepted", "listed-alteration-rejected", "unknown-event"}
+  Enforce = {"quiet", "verify-exact", "honest-token-accepted", "listed-alteration-rejected", "only-own-type-accepted", "unknown-event"}
 CHECK_DEADLOCK FALSE
